@@ -44,6 +44,8 @@ type Exchange struct {
 	BodyWrote   []byte          `json:"-"`
 	BodyPlanned int             `json:"body_planned"`
 	HeadersSent bool            `json:"headers_sent"`
+	HeadersAt   time.Duration   `json:"headers_at,omitempty"`
+	StallAt     time.Duration   `json:"stall_at,omitempty"`
 	Completed   bool            `json:"completed"`
 	FaultFired  string          `json:"fault,omitempty"`
 	WriteErr    string          `json:"write_err,omitempty"`
@@ -311,6 +313,7 @@ func (b *Backend) fire(c *Conn, ex *Exchange, f *Fault) bool {
 		c.Close()
 		return false
 	case "stall":
+		ex.StallAt = b.sim.Now()
 		if f.For > 0 {
 			select {
 			case <-time.After(f.For):
@@ -428,6 +431,7 @@ func (b *Backend) respond(c *Conn, ex *Exchange, r *Resp) bool {
 		return false
 	}
 	ex.HeadersSent = true
+	ex.HeadersAt = b.sim.Now()
 	if r.Fault != nil && r.Fault.At == "after-headers" {
 		if !b.fire(c, ex, r.Fault) {
 			return false
